@@ -2,10 +2,11 @@
 import numpy as np
 
 from xv import bufmon
-from xv.typegen import kinds_in, shape_sig, is_static, plain, AVal
+import xobjects as xo
+from xv.typegen import kinds_in, shape_sig, is_static, plain, AVal, _uid
 from xv.model import Obs, exc_kind, nodes, get_path, set_path, set_model, ar_sig
 from xv.decoder import decode, plan_size
-from xv.props.common import new_case, build_root, flush_contracts
+from xv.props.common import new_case, build_root, flush_contracts, ctxs
 
 ID = "C03"
 LEVEL = "exploration"
@@ -13,18 +14,112 @@ N_QUICK, N_THOROUGH = 70000, 1500000
 T_QUICK, T_THOROUGH = 70, 1500
 FLOORS = {"constructions": 4000, "assignments": 8000, "logged_writes": 50000, "changed_intervals": 20000,
           "size_checks": 4000, "with_live_neighbours": 1500, "assign:sc": 2000, "assign:str": 500,
-          "assign:ref": 200, "assign:ar": 300, "assign:st": 200, "extent_tree_nodes": 50000}
+          "assign:ref": 200, "assign:ar": 300, "assign:st": 200, "extent_tree_nodes": 50000, "string_api_attempts": 3000}
 RULE = ("random type AST x value x placement with poisoned dead bytes and stamped live neighbours; construction and "
         "up to 6 fitting assignments (scalar, string of fitting length, reference, whole array/struct of equal "
         "shape) through the constructor handle, a root view or a nested view; oracle: every logged write and every "
         "changed byte lies in the extent reserved for the object/element (from the allocation log and the "
         "independent decoder's extent tree) or in an allocation made during the operation; reported size == "
         "allocated size == documented size == decoded extent; children inside parents, siblings disjoint; "
-        "neighbours' stamps intact. distinct = (name-erased AST, placement class).")
+        "neighbours' stamps intact; plus fixed-size strings (String.fixed) as field/item and String.update(), where accepting or refusing a text is not judged, only that no byte outside the string changes and an accepted text reads back. distinct = (name-erased AST, placement class).")
 ASSUMPTIONS = ["fitting string = utf-8 length <= length of the string stored at creation"]
 
 
+def _string_api_case(w, rng):
+    """Strings of fixed size (String.fixed(n) as struct field / array item) and String.update(): whether a text is
+    accepted or refused is not judged here; what is judged is that nothing outside the bytes of the addressed string
+    changes, that the string keeps its size word, and that an accepted text reads back."""
+    from xv.model import Env
+    env = Env(rng, ctx=ctxs()[0], neighbours=rng.choice([1, 2, 3]))
+    info = dict(placement=env.placement())
+    seen = set()
+
+    def viol(mech, msg):
+        if mech not in seen:
+            seen.add(mech)
+            w.violation(mech, msg, info)
+
+    def text(n):
+        base = rng.choice(["abcdefghijklmnopqrstuvwxyz0123456789" * 2, "héllo wörld ünïcode çà et là, déjà vu encore"])
+        return base[:n]
+
+    try:
+        buf = env.buf
+        kind = rng.choice(["fixed-field", "fixed-item", "update", "update"])
+        info["kind"] = kind
+        try:
+            if kind.startswith("fixed"):
+                n = rng.choice([16, 24, 32, 40])
+                F = xo.String.fixed(n)
+                if kind == "fixed-field":
+                    R = type(f"XvFx{next(_uid)}", (xo.Struct,), {"k": xo.Int64, "name": F, "x": xo.Float64})
+                    holder = R(k=3, name=rng.choice([1, 5, n - 8]), x=2.5, _buffer=buf)
+                    lo = int(holder._offset) + int(R.name.offset)
+                    setter = lambda v: setattr(holder, "name", v)   # noqa
+                    getter = lambda: holder.name                     # noqa
+                else:
+                    holder = F[3]([1, 2, 3], _buffer=buf)
+                    lo = int(holder._get_offset(1))
+                    setter = lambda v: holder.__setitem__(1, v)      # noqa
+                    getter = lambda: holder[1]                       # noqa
+                hi = lo + n
+                values = [text(rng.randint(0, n - 9)), text(rng.randint(n - 8, n - 1)), text(n + rng.randint(0, 6)), text(n - 9)]
+            else:
+                first = rng.choice([text(rng.randint(1, 20)), rng.choice([8, 13, 16, 40])])
+                sobj = xo.String(first, _buffer=buf)
+                lo, hi = int(sobj._offset), int(sobj._offset) + int(sobj._size)
+                setter = sobj.update
+                getter = sobj.to_str
+                room = int(sobj._size) - 8
+                values = [text(max(0, room - rng.randint(1, 8))), text(room - 1), text(room + rng.randint(0, 9)), ("obj", text(max(0, room - 9)))]
+            xo.String("the neighbour", _buffer=buf)
+            xo.Int64[3]([21, 22, 23], _buffer=buf)
+        except Exception as e:
+            w.count("string_api_setup_refused")
+            return
+        env.repoison()
+        size_word = bytes(bufmon.raw_bytes(buf)[lo:lo + 8])
+        for v in values:
+            if isinstance(v, tuple):
+                v = xo.String(v[1], _buffer=rng.choice([None, buf]))
+                env.repoison()
+            before = bufmon.raw_bytes(buf)
+            try:
+                setter(v)
+                ok = True
+            except Exception:
+                ok = False
+            after = bufmon.raw_bytes(buf)
+            w.count("string_api_attempts")
+            w.count("string_api_accepted" if ok else "string_api_refused")
+            bad = [(a, b) for a, b in bufmon.diff_intervals(before[:len(after)], after[:len(before)]) if a < lo or b > hi]
+            if bad:
+                viol(f"string-api:{kind}:bytes-changed-outside-the-string|{'accepted' if ok else 'refused'}",
+                     f"value {str(v)!r:.50}: bytes {bad[:3]} changed, the string occupies [{lo},{hi})")
+                break
+            if after[lo:lo + 8] != size_word and kind == "update":
+                viol(f"string-api:{kind}:size-word-changed", f"value {str(v)!r:.50}")
+                break
+            if ok:
+                want = v if isinstance(v, str) else v.to_str()
+                try:
+                    got = getter()
+                except Exception as e:
+                    got = f"<{type(e).__name__}>"
+                if got != want:
+                    viol(f"string-api:{kind}:accepted-text-reads-back-differently", f"wrote {want!r:.40}, read {got!r:.40}")
+                    break
+        if env.neighbours_intact():
+            viol(f"string-api:{kind}:stamped-neighbour-damaged", str(env.neighbours_intact()))
+        w.case(["string-api", kind], nontrivial=True)
+    finally:
+        env.close()
+        flush_contracts(w, info)
+
+
 def run_case(w, rng):
+    if rng.random() < 0.05:
+        return _string_api_case(w, rng)
     c = new_case(w, rng)
     t, env = c.t, c.env
     seen = set()
